@@ -9,7 +9,7 @@ cp "$wt/SEEDED/patch.diff" "$out/patch.diff"; cp "$wt/SEEDED/demo.rs" "$out/demo
 cd /repo && git apply "$out/patch.diff" || { echo "patch does not apply to /repo" > "$out/checks.txt"; exit 2; }
 : > "$out/checks.txt"
 for p in $props; do
-  (cd /verif && ./check "$p" --tier quick > "/verif/.work/seed_${id}_$p.out" 2>&1; rc=$?; echo "$p rc=$rc violations=$(grep -c '^VIOLATION' /verif/.work/seed_${id}_$p.out)" >> "$out/checks.txt"; grep -A1 '^VIOLATION' "/verif/.work/seed_${id}_$p.out" | sed -n 2p | cut -c1-260 >> "$out/checks.txt")
+  (cd /verif && VERIF_SCRATCH_REPLAYS=1 ./check "$p" --tier quick > "/verif/.work/seed_${id}_$p.out" 2>&1; rc=$?; echo "$p rc=$rc violations=$(grep -c '^VIOLATION' /verif/.work/seed_${id}_$p.out)" >> "$out/checks.txt"; grep -A1 '^VIOLATION' "/verif/.work/seed_${id}_$p.out" | sed -n 2p | cut -c1-260 >> "$out/checks.txt")
 done
 cd /repo && git checkout -- . 
 cd /verif && git checkout -- evidence 2>/dev/null
